@@ -104,6 +104,8 @@ theorem BCpl.op {c : Sys} {bk : Book} (hi : StInv c.s c.now) (h : BCpl c bk) (op
   | setReady v => exact ⟨he.handles.trans hf.2.1.symm, he.nextHandle.trans hf.2.2.symm, he.calls.trans hf.1.symm⟩
   | setFlush v => exact ⟨he.handles.trans hf.2.1.symm, he.nextHandle.trans hf.2.2.symm, he.calls.trans hf.1.symm⟩
   | fault k => exact ⟨he.handles.trans hf.2.1.symm, he.nextHandle.trans hf.2.2.symm, he.calls.trans hf.1.symm⟩
+  | faultSkip n => exact ⟨he.handles.trans hf.2.1.symm, he.nextHandle.trans hf.2.2.symm, he.calls.trans hf.1.symm⟩
+  | selfWake b => exact ⟨he.handles.trans hf.2.1.symm, he.nextHandle.trans hf.2.2.symm, he.calls.trans hf.1.symm⟩
   | take n => exact ⟨he.handles.trans hf.2.1.symm, he.nextHandle.trans hf.2.2.symm, he.calls.trans hf.1.symm⟩
   | advance n => exact ⟨he.handles.trans hf.2.1.symm, he.nextHandle.trans hf.2.2.symm, he.calls.trans hf.1.symm⟩
 
